@@ -441,6 +441,45 @@ def _reordered(m: Any, mode: int) -> dict:
     return {k: m[k] for k in keys}
 
 
+def scoped_round_trip(mod: Any, records: list, scope: str, what: str,
+                      key_of: Any) -> None:
+    """The records as part of a wider table: an own first column, then the
+    columns of ``mod.CsvWriter(scope)``; read back through
+    ``csv_select_scope(mod.CsvReader, columns, scope)``."""
+    from pycommons.io.csv import csv_read, csv_select_scope, csv_write
+    records = list(records)
+    index = {id(r): i for i, r in enumerate(records)}
+
+    def titles(w: Any) -> Any:
+        yield "rowId"
+        yield from w.get_column_titles()
+
+    def row(w: Any, r: Any) -> Any:
+        yield str(index[id(r)])
+        yield from w.get_row(r)
+
+    text = sut(f"csv_write({what}, scope={scope!r})", lambda: list(csv_write(
+        data=records, setup=mod.CsvWriter(scope).setup, column_titles=titles,
+        get_row=row)))
+
+    def setup(columns: dict) -> tuple:
+        rid = columns.pop("rowId")
+        return rid, csv_select_scope(mod.CsvReader, columns, scope)
+
+    def parse(info: tuple, cells: list) -> tuple:
+        return int(cells[info[0]]), info[1].parse_row(cells)
+
+    back = sut(f"csv_read({what}, scope={scope!r})", lambda: list(csv_read(
+        rows=text, setup=setup, parse_row=parse)))
+    require(len(back) == len(records), lambda: f"scope {scope!r}: "
+            f"{len(records)} {what} records written, {len(back)} read")
+    for rid, rec in back:
+        why = key_of(records[rid], rec)
+        require(not why, lambda: f"{what} record {rid} changed in the CSV "
+                f"round trip under the column scope {scope!r}: {why[:5]}; "
+                f"header {text[0]!r}")
+
+
 def check_results_table(ctx: Ctx, case: dict) -> None:
     from moptipyapps.binpacking2d import packing_result as pr
     res = build_results(case)
@@ -479,6 +518,10 @@ def check_results_table(ctx: Ctx, case: dict) -> None:
                     "re-writing the parsed records gives a different file")
     finally:
         shutil.rmtree(tmp, ignore_errors=True)
+    if case.get("scope"):
+        scoped_round_trip(pr, res, case["scope"], "result",
+                          lambda a, b: diff(a, b, "record"))
+        ctx.rec.label("results_table_scoped")
     labels, nt = table_labels(case)
     ctx.rec.case(case, nontrivial=nt, labels=["obj=results_table", *labels])
 
@@ -498,8 +541,9 @@ def check_stats_table(ctx: Ctx, case: dict) -> None:
         modulo_f13 = True
     # (statistics need identical bin-count bounds within a group: the
     # per-record subsets of the result tables are not used here)
-    res = build_results({**case, "recs": [{**r, "bounds_kept": None}
-                                          for r in case["recs"]]})
+    res = build_results({**case, "recs": [
+        {**r, "bounds_kept": case.get("stats_bounds")}
+        for r in case["recs"]]})
     stats: list = []
     sut("from_packing_results", ps.from_packing_results, res, stats.append)
     groups = {(r["algo"], r["inst"], r["obj"], r["enc"])
@@ -542,6 +586,18 @@ def check_stats_table(ctx: Ctx, case: dict) -> None:
                     "re-writing the parsed statistics gives a different file")
     finally:
         shutil.rmtree(tmp, ignore_errors=True)
+    if case.get("scope"):
+        def changed(x: Any, y: Any) -> list:
+            why = diff(x, y, "statistics")
+            if modulo_f13 and _is_f13_symptom(
+                    x.end_statistics.max_time_millis,
+                    y.end_statistics.max_time_millis):
+                why = [w for w in why if not w.startswith(MAXTIME_PATH)]
+            return why
+        scoped_round_trip(ps, stats, case["scope"], "statistics", changed)
+        ctx.rec.label("stats_table_scoped")
+    if case.get("stats_bounds"):
+        ctx.rec.label(f"stats_bin_bounds_kept={sum(case['stats_bounds'])}")
     if modulo_f13:
         ctx.rec.label(f"stats_checked_modulo_{F_MAXTIME}")
         return
